@@ -637,13 +637,16 @@ pub fn check_history(hist: &Hist, rep: &mut Report) {
         for e in evs {
             while next < inserts.len() && inserts[next].call < e.seq {
                 let o = inserts[next];
+                next += 1;
+                if !o.ok {
+                    continue; // refused or dropped: it created nothing
+                }
                 let eff = if o.cost == 0 { o.aux } else { o.cost };
                 let d0 = dearest.entry(o.key).or_insert(0);
                 if eff > *d0 {
                     total += (eff - *d0) as i128;
                     *d0 = eff;
                 }
-                next += 1;
             }
             if total > hist.h.cfg.max_cost as i128 {
                 break; // from here on evictions for room are possible
